@@ -809,7 +809,10 @@ def rule_sweep_chord(chk, prog):
     r.count()
     corner = False
     for c in ins:
-        ats = atoms(path_condition(fn, c, inline=True))
+        pc_ = path_condition(fn, c, inline=True)
+        if entails(pc_, ("const", False)):
+            continue            # unreachable (e.g. `if (false && ...)`)
+        ats = atoms(pc_)
         if any(re.search(r"\.point == (centerInf|vert)\.point\)$", a) or re.search(r"^\((centerInf|vert)\.point == .*\.point\)$", a) for a in ats) \
                 and not any("pointOnLine" in a or "vecDir" in a for a in ats):
             corner = True
